@@ -22,7 +22,7 @@ MCFoldTable == [Foo |-> "foo", foo |-> "foo", FOO |-> "foo", Bar |-> "bar", bar 
                 a |-> "a", A |-> "a", B |-> "b", b |-> "b", x |-> "x", X |-> "x", n |-> "n", Dup |-> "dup", New |-> "new",
                 Zed |-> "zed", zz |-> "zz", ID |-> "id", PreFoo |-> "prefoo", Prefoo |-> "prefoo",
                 PreBar |-> "prebar", Prespec |-> "prespec", PreMetadata |-> "premetadata", p |-> "p", q |-> "q", P |-> "p"]
-MCTrimTable == [x \in {" a "} |-> "a"]
+MCTrimTable == [x \in {" a ", "b "} |-> IF x = " a " THEN "a" ELSE "b"]
 MCHintRank  == [h1 |-> 1, h2 |-> 2, skip_variant_plugin_registration |-> 3]
 
 (* ------------------------------ universe ------------------------------- *)
@@ -36,7 +36,7 @@ TypePool == <<
   TArray(TRef("p", "foo")),
   TMap(TRef("p", "Foo"), TRef("p", "Bar")),
   TStruct(<<FieldC("a", TString, TRUE, <<"fa">>), Field("B", RefFooND, FALSE)>>),
-  TEnum(<<Member("A", VStr(" a "), "string"), Member("B", VStr("b"), "string")>>),
+  TEnum(<<Member("A", VStr(" a "), "string"), Member("B", VStr("b "), "string")>>),   \* BOTH values need trimming
   TDisj(<<TRef("p", "Foo"), TRef("p", "Bar")>>, "kind", <<MapTo("x", "Foo"), MapTo("y", "Bar")>>),
   TRef("q", "Foo"),
   TStruct(<<Field("a", AsNullable(TConstRef("p", "Bar", VStr("x"))), TRUE),     \* required AND nullable (CUE `a: T | null`)
@@ -95,7 +95,7 @@ Acts ==
 \cup [a : {"retype_field"}, field : FRefs, as : {TArray(TRef("p", "Bar"))}, comments : {NoC, SomeC}]
 \cup [a : {"fields_set_required"}, fields : {<<r>> : r \in FRefs} \cup {<<FieldRef("q", "Foo", "x"), FieldRef("r", "Foo", "x")>>}]
 \cup [a : {"fields_set_not_required"}, fields : {<<r>> : r \in FRefs}]
-\cup [a : {"fields_set_default"}, field : FRefs, value : {VStr("nd")}]
+\cup [a : {"fields_set_default"}, field : FRefs, value : {VStr("nd"), VStr("")}]    \* a default may be the empty string
 \cup [a : {"replace_reference"}, from : {ObjRef("p", "Foo"), ObjRef("p", "foo"), ObjRef("p", "bar"), ObjRef("q", "Foo"), ObjRef("p", "Zed")},
       to : {ObjRef("p", "Bar"), ObjRef("q", "Foo")}]
 \cup [a : {"constant_to_enum"}, objects : {<<r>> : r \in ORefs} \cup {<<ObjRef("p", "Foo"), ObjRef("r", "Foo")>>, <<ObjRef("r", "Foo"), ObjRef("p", "Foo")>>}]
